@@ -39,11 +39,23 @@ def load(root):
         raise Lost('specification.rs: %d Pattern specs but %d recognised check_fn/regex pairs' % (total_patterns, len(found)))
     src = Source(os.path.join(root, REGEX))
     infos = {}
+    counts = {}
+    for n, rx in found:
+        counts[(int(n), rx)] = counts.get((int(n), rx), 0) + 1
     for n in sorted(by_n):
-        if len(by_n[n]) != 1:
-            raise Lost('validate_regex_%d is published with several different regexes: %r' % (n, by_n[n]))
-        rx = next(iter(by_n[n]))
-        info = dict(n=n, regex=rx, dfa=rs.compile_regex(rx))
+        # a validator may be referenced by several spec entries; group their regex texts by language
+        texts = sorted(by_n[n], key=lambda r: (-counts[(n, r)], r))
+        classes = []
+        for rx in texts:
+            d = rs.compile_regex(rx)
+            for c in classes:
+                if equivalent(c['dfa'], d) is None:
+                    c['texts'].append(rx)
+                    break
+            else:
+                classes.append(dict(regex=rx, dfa=d, texts=[rx]))
+        rx = classes[0]['regex']
+        info = dict(n=n, regex=rx, dfa=classes[0]['dfa'], alts=classes[1:])
         f = src.find_fn('validate_regex_%d' % n)
         body = src.text[f['open']:f['end'] + 1]
         info['line'] = f['line']
@@ -218,6 +230,12 @@ def generate(root, d, eq_lengths, overrides=None):
         parts.append(rust_ref(n, dfa))
         parts.append(CHECK_FN % dict(n=n))
         checks.append('regex_%d => check_regex_%d' % (n, n))
+        for k, alt in enumerate(info.get('alts', [])):
+            # the same validator is published with a second, different language by another spec entry
+            sfx = '%d_alt%d' % (n, k)
+            parts.append(rust_ref(sfx, alt['dfa']))
+            parts.append('pub fn check_regex_%s(input: &[u8]) {\n    assert!(validate_regex_%d(input) == ref_accepts_%s(input), "validate_regex_%d disagrees with a regex it is published with");\n}' % (sfx, n, sfx, n))
+            checks.append('regex_%s => check_regex_%s' % (sfx, sfx))
         m = dict(kind=info['kind'], regex=info['regex'], ref_states=dfa.n, line=info['line'])
         if info['kind'] == 'table':
             sdfa, r = dfa, str(n)
